@@ -550,8 +550,11 @@ def rule_E(F, R):
                 nm = e["callee"]
                 if re.search(r"PartialOrd::(lt|le|gt|ge)$", nm):
                     a0, a1 = e["args"]
-                    thr0 = _has(a0, lambda z: z[0] == "P" and z[1] in thr_names)
-                    thr1 = _has(a1, lambda z: z[0] == "P" and z[1] in thr_names)
+                    # the threshold: captured by a predicate closure, or (predicate in the function itself) the
+                    # result of the `now - days` subtraction
+                    is_thr = lambda z: (z[0] == "P" and z[1] in thr_names) or (z[0] == "C" and len(z) > 2 and isinstance(z[2], str) and z[2].endswith("ops::Sub::sub"))
+                    thr0 = _has(a0, is_thr)
+                    thr1 = _has(a1, is_thr)
                     rel = nm.split("::")[-1]
                     if thr1 and not thr0:
                         cmp_ok = (rel == "lt", "date %s threshold" % rel)
